@@ -62,11 +62,13 @@ def add_decoder(reg):
                      options={'ssize_len': True}))
 
 
-def add_cipher(reg):
+def add_cipher(reg, mgf=None):
+    """mgf: restrict the object to one configuration ('user': mgfunc given, 'mgf1': the default closure); None = both"""
+    kinds = {'user': [OMGF], 'mgf1': [mgf1_closure(_cipher_self, module='Crypto.Cipher.PKCS1_OAEP',
+                                                   text='lambda x, y: MGF1(x, y, self._hashObj)', var='self')]}
     reg.add(ClassContract(CIPHER,
                           fields={'_key': 'obj:' + RSA + 'RsaKey', '_hashObj': OHASH,
-                                  '_mgf': [OMGF, mgf1_closure(_cipher_self, module='Crypto.Cipher.PKCS1_OAEP',
-                                                              text='lambda x, y: MGF1(x, y, self._hashObj)', var='self')],
+                                  '_mgf': (kinds[mgf] if mgf else kinds['user'] + kinds['mgf1']),
                                   '_label': 'bytes', '_randfunc': RANDFUNC},
                           # domain: k <= 2^31 - 1 octets (C int range of the decoder; also keeps every mask request in the domain
                           # of MGF1, RFC 8017 B.2.1 step 1)
@@ -79,8 +81,9 @@ def encrypt_contract(buf='buffer'):
     too_long = 'len(message) > %s - 2 * %s - 2' % (K, HLEN)                                           # step 1b: "message too long"
     em0, em1 = em('rnd_tape(rnd_cursor())'), em('rnd_tape(old(rnd_cursor()))')
     return Contract(CIPHER + '.encrypt', params={'message': buf},
-                    # be(EM) >= n is RSAEP's "message representative out of range" (5.1.1 step 1); NOT PROVED impossible here, see below
-                    raises={'ValueError': ('iff', '%s or be(%s) >= %s' % (too_long, em0, KEY_N))},
+                    # (RSAEP's "message representative out of range", 5.1.1 step 1, cannot occur: EM starts with 0x00, so
+                    # OS2IP(EM) < 256^(k-1) <= 2^(modBits-1) <= n -- proved with the opt-in facts `int_lemmas`)
+                    raises={'ValueError': ('iff', too_long)},
                     result='bytes',
                     ensures={'rfc8017_7_1_1': 'result == i2osp(pow(be(%s), %s, %s), %s)' % (em1, KEY_E, KEY_N, K),
                              'length': 'len(result) == ' + K,
@@ -106,13 +109,14 @@ def decrypt_contract(buf='buffer'):
                     modifies=[], opaque=[S + 'mgf1'])
 
 
-def registry(buf='buffer'):
-    """buf: python type of the message / ciphertext argument (bytes | bytearray | memoryview; 'buffer' = all three): one unit per type"""
+def registry(buf='buffer', mgf=None):
+    """buf: python type of the message / ciphertext argument (bytes | bytearray | memoryview; 'buffer' = all three);
+    mgf: configuration of the cipher object (see add_cipher).  One unit per (type, configuration)."""
     reg = common_registry()
     add_rsa_key(reg)
     add_mgf(reg)
     add_decoder(reg)
-    add_cipher(reg)
+    add_cipher(reg, mgf or None)
     reg.add(encrypt_contract(buf))
     reg.add(decrypt_contract(buf))
     return reg
@@ -124,6 +128,7 @@ def units(prop, tier):
         return []
     out = [pyvc_unit(prop, 'enc.oaep.oaep_decode', registry, [DEC + 'oaep_decode'])]
     for buf in ('bytes', 'bytearray', 'memoryview'):
-        out.append(pyvc_unit(prop, 'enc.oaep.encrypt.' + buf, (lambda b=buf: registry(b)), [CIPHER + '.encrypt']))
-        out.append(pyvc_unit(prop, 'enc.oaep.decrypt.' + buf, (lambda b=buf: registry(b)), [CIPHER + '.decrypt']))
+        for mgf in ('mgf1', 'user'):
+            out.append(pyvc_unit(prop, 'enc.oaep.encrypt.%s.mgf_%s' % (buf, mgf), (lambda b=buf, m=mgf: registry(b, m)), [CIPHER + '.encrypt']))
+            out.append(pyvc_unit(prop, 'enc.oaep.decrypt.%s.mgf_%s' % (buf, mgf), (lambda b=buf, m=mgf: registry(b, m)), [CIPHER + '.decrypt']))
     return out
